@@ -956,15 +956,18 @@ def n8(e: Engine, rep: Report, rule: str = 'N8'):
         return
     # which group of the line pattern is the code?  recv_reply says so
     ctx = e.method_ctx('slimta.smtp.io.IO', 'recv_reply')
-    gno = None
-    for n in walk_own(ctx.func.node):
-        if isinstance(n, ast.Assign) and len(n.targets) == 1 and \
-                isinstance(n.targets[0], ast.Name) and \
-                n.targets[0].id == 'code' and isinstance(n.value, ast.Call) \
-                and isinstance(n.value.func, ast.Attribute) and \
-                n.value.func.attr == 'group' and n.value.args and \
-                isinstance(n.value.args[0], ast.Constant):
-            gno = n.value.args[0].value
+    gv = rx.group_vars(ctx.func.node)
+    gno = gv.get('code')
+    if gno is None:
+        # the variable whose decoded value is returned as the code
+        for n in walk_own(ctx.func.node):
+            if isinstance(n, ast.Return) and isinstance(n.value, ast.Tuple) \
+                    and n.value.elts:
+                x = n.value.elts[0]
+                while isinstance(x, (ast.Call, ast.Attribute)):
+                    x = x.func if isinstance(x, ast.Call) else x.value
+                if isinstance(x, ast.Name):
+                    gno = gv.get(x.id)
     rep.evaluations += 1
     if gno is None:
         rep.error('anchor vanished: `code = match.group(k)` in recv_reply')
